@@ -84,6 +84,15 @@ func (g *engine) account(h History, o *Outcome) {
 	for t, n := range o.Tags {
 		r.Count("answers_by_"+t, n)
 	}
+	for sh, n := range o.FSRegs {
+		r.Count("structure_registrations_"+sh, n)
+	}
+	if o.FSReq > 0 {
+		r.Count("structure_histories", 1)
+		r.Count("structure_requests", o.FSReq)
+		r.Count("structure_answers_served", o.FSServed)
+		r.Count("structure_answers_unimplemented", o.FSUnrouted)
+	}
 	for _, s := range o.States {
 		r.Distinct(s)
 	}
@@ -99,7 +108,11 @@ func (g *engine) account(h History, o *Outcome) {
 func (g *engine) known(p History, obs string) History {
 	var best History
 	for _, m := range g.minimal[obs] {
-		if subseq(m, p) || subseq(m, p.swapped()) {
+		hit := false
+		for _, v := range p.variants() {
+			hit = hit || subseq(m, v)
+		}
+		if hit {
 			if best == nil || len(m) < len(best) || (len(m) == len(best) && m.String() < best.String()) {
 				best = m
 			}
@@ -112,11 +125,19 @@ func (g *engine) known(p History, obs string) History {
 // hide a stale handler) and reports whether the observable shows up, and at
 // which prefix.
 func (g *engine) failsWith(h History, obs string) (History, bool) {
-	o := g.workers[0].Run(h, 18)
-	g.r.Count("minimisation_reruns", 1)
-	for _, f := range o.Failures {
-		if f.Obs == obs {
-			return h[:f.Step+1], true
+	// what larking does with a multi-file back-end depends on the order in
+	// which it happens to visit the files: several attempts
+	tries := 1
+	if isStructure(h) {
+		tries = 12
+	}
+	for t := 0; t < tries; t++ {
+		o := g.workers[0].Run(h, 18)
+		g.r.Count("minimisation_reruns", 1)
+		for _, f := range o.Failures {
+			if f.Obs == obs {
+				return h[:f.Step+1], true
+			}
 		}
 	}
 	return nil, false
@@ -208,7 +229,7 @@ var listBadOps = []Op{{"RegConn", "bd"}, {"DropConn", "bd"}, {"List", "d1"}, {"L
 // pOps: bp serves two same-named services of prefix-related packages.
 var pOps = []Op{{"RegConn", "bp"}, {"DropConn", "bp"}, {"RegConn", "b3"}, {"DropConn", "b3"}}
 
-var extOps = append(append(append([]Op{{"List", "d1"}, {"List", "all"}, {"RegConn", "bh"}, {"DropConn", "bh"}, {"RegConn", "bp"}, {"DropConn", "bp"}}, revOps2...), allOps...), Op{"RegConn", "b3x"}, Op{"DropConn", "b3x"}, Op{"RegConn", "b4"}, Op{"DropConn", "b4"})
+var extOps = append(append(append([]Op{{"RegConn", "fdiamond"}, {"DropConn", "fdiamond"}, {"RegConn", "fmixed"}, {"DropConn", "fmixed"}, {"List", "d1"}, {"List", "all"}, {"RegConn", "bh"}, {"DropConn", "bh"}, {"RegConn", "bp"}, {"DropConn", "bp"}}, revOps2...), allOps...), Op{"RegConn", "b3x"}, Op{"DropConn", "b3x"}, Op{"RegConn", "b4"}, Op{"DropConn", "b4"})
 
 func randomHistory(rng *rand.Rand, minLen, maxLen int) History {
 	n := minLen + rng.Intn(maxLen-minLen+1)
@@ -223,7 +244,11 @@ func setup(r *mon.Run) {
 	r.Rule = "Histories over {RegLocal, RegConn(b1|b2|b3|bc), DropConn(b1|b2|b3|bc|unknown)}: b1,b2 serve service A (also served locally), b3 service B, " +
 		"bc service C whose rule collides with A (registration error path). Exhaustive up to a length, random beyond. After every step every method is requested " +
 		"over HTTP (every binding - path variable, body, implicit - at least twice, at least 6 requests) and 6x over gRPC; the answering tag must be live in the sequential model, Unimplemented/NotFound iff " +
-		"none is live; return values of RegisterConn/DropConn are compared with the model. distinct = (operation kind, model state after the step)."
+		"none is live; return values of RegisterConn/DropConn are compared with the model. distinct = (operation kind, model state after the step). " +
+		"File-structure lane: back-ends whose listed services are spread over several .proto files that import one another (pair, chain, diamond, siblings beside a shared type file, " +
+		"a mix with a standalone file, an imported file whose own service the back-end does not implement; two of them with a replica) are registered, re-registered and dropped many times " +
+		"on fresh muxes and within one mux (the order in which the front visits files and services is not fixed); after every step every service the shape's files declare is requested: " +
+		"bindings with path variables, the implicit binding and gRPC."
 	r.Floor = 30
 	r.Assume("the tag stamped into a reply identifies the back-end that served the request")
 	r.Assume("a registration may be refused only if a provider of the colliding service was registered earlier in the history; a refused registration leaves the model unchanged")
@@ -432,6 +457,7 @@ func RunC11(r *mon.Run) {
 		}
 	}
 	r.Set("exhaustive_histories", total)
+	g.structureLane()
 
 	rng := r.Rand("c11-random-histories")
 	var hs []History
@@ -459,6 +485,78 @@ func RunC11(r *mon.Run) {
 	}
 }
 
+// structureLane: the file-structure dimension (structure.go). Every shape's
+// histories are run `rounds` times: larking's visiting order of the files of
+// one reflection conversation differs from registration to registration.
+func (g *engine) structureLane() {
+	r := g.r
+	rounds := 16
+	if r.Thorough() {
+		rounds = 200
+	}
+	var hs []History
+	var dr []int
+	for k := range fsShapes {
+		for _, h := range structureHistories(&fsShapes[k]) {
+			d := 3
+			for _, o := range h {
+				if o.B != h[0].B {
+					d = Draws // two providers: the random pick among handlers
+				}
+			}
+			n := rounds
+			if d == Draws {
+				n = max(2, rounds/8) // (many histories of this kind per shape)
+			}
+			for i := 0; i < n; i++ {
+				hs = append(hs, h)
+				dr = append(dr, d)
+			}
+		}
+	}
+	outs := make([]*Outcome, len(hs))
+	ch := make(chan int)
+	var wg sync.WaitGroup
+	for _, w := range g.workers {
+		wg.Add(1)
+		go func(w *Worker) {
+			defer wg.Done()
+			for i := range ch {
+				outs[i] = w.Run(hs[i], dr[i])
+			}
+		}(w)
+	}
+	for i := range hs {
+		ch <- i
+	}
+	close(ch)
+	wg.Wait()
+	// shortest histories first: the finding key is the minimal history
+	for L := 1; L <= 7; L++ {
+		for i, h := range hs {
+			if len(h) == L {
+				g.account(h, outs[i])
+				g.attribute(h, outs[i], dr[i])
+			}
+		}
+	}
+	// what the back-ends saw: reflection conversations and the distinct
+	// orders in which the front asked for the shape's own files by name
+	orders := map[string][]string{}
+	for k := range fsShapes {
+		s := &fsShapes[k]
+		for _, p := range s.providers() {
+			o, n := g.env.FS[p].fetchOrders()
+			r.Count("structure_reflection_conversations", n)
+			orders[p] = o
+			r.Count("structure_distinct_dependency_fetch_orders_"+p, len(o))
+		}
+	}
+	r.Set("structure_dependency_fetch_orders", orders)
+	r.Set("structure_rounds", rounds)
+	r.Sample(map[string]any{"history": hs[len(hs)-1].String(), "lane": "file-structure"})
+}
+
 // Replay re-runs one history.
 func Replay(r *mon.Run, raw json.RawMessage) {
 	setup(r)
@@ -477,13 +575,20 @@ func Replay(r *mon.Run, raw json.RawMessage) {
 		c.Draws = Draws
 	}
 	o := g.workers[0].Run(c.History, 3*c.Draws)
+	for t := 0; t < 40 && len(o.Failures) == 0 && isStructure(c.History); t++ {
+		// depends on the order in which the front visits the back-end's files
+		o = g.workers[0].Run(c.History, 3*c.Draws)
+	}
 	g.account(c.History, o)
 	fmt.Printf("replayed history %s: model states %v\n", c.History, o.States)
 	for _, f := range o.Failures {
 		fmt.Printf("  step %d %s: %s\n", f.Step+1, f.Obs, f.What)
 		m := c.History[:f.Step+1].Canon()
-		if len(c.Minimal) > 0 && (subseq(c.Minimal, m) || subseq(c.Minimal, m.swapped())) {
-			m = c.Minimal
+		for _, v := range m.variants() {
+			if len(c.Minimal) > 0 && subseq(c.Minimal, v) {
+				m = c.Minimal
+				break
+			}
 		}
 		r.Violate(m.String()+":"+f.Obs, f.What, Case{History: c.History[:f.Step+1], Minimal: m, Draws: c.Draws, Failure: f, States: o.States})
 	}
